@@ -539,6 +539,22 @@ func (w *World) onSend(from int, addr string, b []byte) {
 		}
 		if len(d) < len(full) {
 			w.Stats.add(&w.Stats.TruncatedDigests, 1)
+			if w.sc.Oracles.C13 {
+				// at least one more entry whenever the next one fits (all
+				// digest entries of one world have the same encoded size)
+				if nb, err := gossip.VEncodeDigest(h, full[:len(d)+1], 1<<20); err == nil && len(nb) <= w.sc.MaxPacket {
+					w.violate("C13", "emit-maximal", "digest-not-maximal", "digest from %s carries %d of %d entries although %d fit in %d bytes", w.nodes[from].ID, len(d), len(full), len(d)+1, w.sc.MaxPacket)
+				}
+			}
+		}
+		if w.sc.Oracles.C13 {
+			ids := map[string]bool{}
+			for _, e := range d {
+				if ids[e.ID] {
+					w.violate("C13", "emit-digest-subset", "digest-duplicate-entry", "digest from %s lists %s twice", w.nodes[from].ID, e.ID)
+				}
+				ids[e.ID] = true
+			}
 		}
 		// re-derive in the order chosen by the explorer: as many entries as
 		// the real encoder decided to send, taken from the sender's digest
@@ -707,4 +723,21 @@ func (w *World) DescInflight() []string {
 		out = append(out, fmt.Sprintf("%s (%dB)", p.Desc, len(p.Data)))
 	}
 	return out
+}
+
+// EnableCorpus makes the world remember every distinct datagram it captures.
+func (w *World) EnableCorpus() { w.packetLog = map[string][]byte{} }
+
+// Corpus returns the distinct datagrams and the stream requests produced by
+// the real code so far.
+func (w *World) Corpus() (packets [][]byte, streams [][]byte) {
+	var keys []string
+	for k := range w.packetLog {
+		keys = append(keys, k)
+	}
+	sort.Strings(keys)
+	for _, k := range keys {
+		packets = append(packets, w.packetLog[k])
+	}
+	return packets, w.streamBytes
 }
